@@ -80,19 +80,51 @@ static ref::Mv pickPromoStyle(Rng& r, const ref::Pos& p, const std::vector<ref::
 }
 
 /** Random legal game from the initial position; no position of it has fewer than MINMEN men. */
-static GenGame genGame(Rng& r) {
+enum { F_NONE = 0, F_CROSS32, F_EP_SHORT };
+static GenGame genGameInner(Rng& r, int force, bool epPlainOk = true) {
     GenGame G;
     G.style = r.below(100) < 40 ? G_QUIET : r.below(100) < 40 ? G_TACT : r.below(100) < 60 ? G_PROMO : G_UNIFORM;
     int len = r.chance(8) ? r.range(1, 3) : r.range(1, 150);
+    if (force == F_EP_SHORT) { len = r.range(6, 40); G.style = r.chance(50) ? G_UNIFORM : G_TACT; }
+    if (force == F_CROSS32) len = r.range(20, 150);
     ref::Pos p; ref::parseFEN(ref::startFEN, p);
     G.g.pos.push_back(p);
+    const bool wantCross = force == F_CROSS32 || (force == F_NONE && r.chance(30));
+    // with all 32 men on the board no un-capture can explain the last move, so the quiet cross-check is the only candidate
+    const bool noCaptures = force == F_CROSS32 || (wantCross && r.chance(20));
+    ref::Mv crossReply;
     for (int ply = 0; ply < len; ply++) {
         std::vector<ref::Mv> l0, l; ref::genLegal(p, l0);
-        bool budget = p.nMen() > MINMEN;
+        bool budget = p.nMen() > MINMEN && !noCaptures;
         for (auto& m : l0) if (budget || !ref::isCapture(p, m)) l.push_back(m);
         if (l.empty()) break;
         ref::Mv m; bool chosen = false;
-        if (ply == len - 1) {
+        if (crossReply.from != crossReply.to) {
+            // second half of a cross-check chosen one ply earlier
+            m = crossReply; chosen = true; G.finalKind = noCaptures ? "cross-check-32-men" : "cross-check"; crossReply = ref::Mv(); len = ply + 1;
+        } else if (wantCross && ply >= 4 && ply + 2 <= len) {
+            // cross-check: a check answered by a quiet, non-pawn move that itself gives check (the last-move analysis has a separate
+            // branch for "quiet move made while in check")
+            std::vector<std::pair<ref::Mv, ref::Mv>> pairs;
+            for (auto& c : l) {
+                ref::Pos q = ref::make(p, c);
+                if (!ref::inCheck(q)) continue;
+                std::vector<ref::Mv> rl; ref::genLegal(q, rl);
+                for (auto& e : rl) if (!ref::isCapture(q, e) && ref::kindOf(q.b[e.from]) != ref::K_P && !ref::isCastle(q, e) && ref::inCheck(ref::make(q, e))) pairs.push_back({c, e});
+            }
+            if (!pairs.empty()) { auto pr = pairs[r.below((int)pairs.size())]; m = pr.first; crossReply = pr.second; chosen = true; }
+        }
+        if (!chosen && force == F_EP_SHORT && ply >= 4) {
+            // a short game that ends with an en passant capture: the double step before it is a forced last-but-one move, so the
+            // last-move analysis takes back two moves and the proof game search (iterated mode) finds a game quickly
+            // preferably one that gives check: then no quiet move can have been the last move, the tool takes back the capture and finds
+            // the double step before it forced - two reconstructed last moves in front of the proof game it prints
+            std::vector<ref::Mv> sel, selCheck;
+            for (auto& c : l) if (ref::isEnPassant(p, c)) { sel.push_back(c); if (ref::inCheck(ref::make(p, c))) selCheck.push_back(c); }
+            if (!selCheck.empty()) { m = selCheck[r.below((int)selCheck.size())]; chosen = true; G.finalKind = "ep-capture-check-short-game"; len = ply + 1; }
+            else if (!sel.empty() && epPlainOk) { m = sel[r.below((int)sel.size())]; chosen = true; G.finalKind = "ep-capture-short-game"; len = ply + 1; }
+        }
+        if (!chosen && ply == len - 1) {
             // shape the final position: e.p. right, check, capture, promotion as the last move
             int x = r.below(100);
             std::vector<ref::Mv> sel;
@@ -124,6 +156,18 @@ static GenGame genGame(Rng& r) {
     return G;
 }
 
+/** 12% of the games are forced into one of the rare shapes (rejection sampling over whole games). */
+static GenGame genGame(Rng& r) {
+    int x = r.below(100);
+    int force = x < 6 ? F_CROSS32 : x < 12 ? F_EP_SHORT : F_NONE;
+    if (force != F_NONE)
+        for (int attempt = 0; attempt < 1200; attempt++) {
+            GenGame G = genGameInner(r, force, attempt >= 900);
+            if (force == F_CROSS32 ? G.finalKind == "cross-check-32-men" : (G.finalKind == "ep-capture-check-short-game" || G.finalKind == "ep-capture-short-game")) return G;
+        }
+    return genGameInner(r, F_NONE);
+}
+
 static std::string uciMoves(const posgen::Game& g, size_t upto = (size_t)-1) {
     std::string s;
     for (size_t i = 0; i < g.moves.size() && i < upto; i++) { if (i) s += ' '; s += ref::mvStr(g.moves[i]); }
@@ -143,7 +187,7 @@ static std::string fenNoCounters(const std::string& fen) {
     return a == std::string::npos ? fen : fen.substr(0, a);
 }
 
-static void genStats(const GenGame& G, const std::string& goal) {
+static void genStats(const GenGame& G, const std::string& goal, bool rawEp = false) {
     const ref::Pos& f = G.g.pos.back();
     rep.add(std::string("gen_style_") + styleNames[G.style]);
     rep.add("gen_final_" + G.finalKind);
@@ -164,7 +208,7 @@ static void genStats(const GenGame& G, const std::string& goal) {
     // the reader must not have changed anything but an uncapturable e.p. square
     ref::Pos back;
     if (!ref::parseFEN(goal, back) || memcmp(back.b, f.b, 64) != 0 || back.wtm != f.wtm || back.castle != f.castle ||
-        back.ep != ((f.ep >= 0 && ref::epLegal(f)) ? f.ep : -1)) {
+        back.ep != ((f.ep >= 0 && (rawEp || ref::epLegal(f))) ? f.ep : -1)) {
         fprintf(stderr, "h_pg: FEN normalisation changed the position: %s -> %s\n", ref::toFEN(f).c_str(), goal.c_str());
         exit(2);
     }
@@ -259,6 +303,7 @@ static bool replayProof(const std::string& goalFen, const std::vector<std::strin
         p = ref::make(p, m);
     }
     int ep = (p.ep >= 0 && ref::epLegal(p)) ? p.ep : -1;
+    if (g.ep >= 0 && !ref::epLegal(g)) g.ep = -1;       // a goal FEN may name the square behind a double step although nothing can capture there
     if (memcmp(p.b, g.b, 64) != 0) { why = "final board differs: " + ref::toFEN(p); return false; }
     if (p.wtm != g.wtm) { why = "final side to move differs: " + ref::toFEN(p); return false; }
     if (p.castle != g.castle) { why = "final castling rights differ: " + ref::toFEN(p); return false; }
@@ -468,10 +513,21 @@ static void filterMode(uint64_t seed, long long npos, bool onlyPrint) {
         std::string moves = uciMoves(g);
         std::string goal = normFen(g.pos.back());
         if (goal.empty()) { viol("reachable-fen-rejected-by-reader", ref::toFEN(g.pos.back()) + " | moves " + moves); continue; }
-        genStats(G, goal);
+        // Half of the finals that follow a double pawn step with nothing to capture it are given the way most programs write them:
+        // with the square behind the pawn in the e.p. field (the same position in other words; before fix F23 the tool called it illegal)
+        bool rawEp = false;
+        {
+            const ref::Pos& f = g.pos.back();
+            if (f.ep >= 0 && !ref::epLegal(f) && r.chance(50)) {
+                std::string raw = ref::toFEN(f);
+                std::vector<std::string> a = splitWs(raw), b = splitWs(goal);
+                if (a.size() == 6 && b.size() == 6 && b[3] == "-") { a[3] = "-"; if (a == b) { goal = raw; rawEp = true; rep.add("gen_final_fen_names_uncapturable_ep_square"); } }
+            }
+        }
+        genStats(G, goal, rawEp);
         rep.add("positions");
         rep.distinct.insert(fnv(fenNoCounters(goal)));
-        if (onlyPrint) { printf("FEN %s | %s\n", goal.c_str(), moves.c_str()); continue; }
+        if (onlyPrint) { printf("FEN %s | %s | %s\n", goal.c_str(), moves.c_str(), G.finalKind.c_str()); continue; }
         setCrumb("filter goal " + goal + " | moves " + moves);
         std::stringstream in, out, lg;
         in << goal << "\n";
